@@ -17,6 +17,21 @@ func runC20(p *Prog, r *Report) {
 	c20R1(p, r)
 	c20R2(p, r)
 	c20R3(p, r)
+	// R4: a reload must not undo an acknowledged change that is still waiting for its save. The
+	// unchanged-content short-cut of LoadFromFile is what protects it (the file still holds the
+	// previous save, which is exactly what the manager remembers having written); if save and load do
+	// not remember precisely the bytes on disk, a reload in the debounce window parses the old file,
+	// reverts the cache, and the queued save then writes the reverted set. Same analysis as C08-R10.
+	{
+		sub := NewReport("C20", "quick")
+		c08R10(p, sub)
+		r.Rule("C20-R4", "a reload in the save's debounce window keeps the pending change: "+sub.RuleDocs["C08-R10"])
+		for _, o := range sub.Obs {
+			o.Rule = "C20-R4"
+			r.Obs = append(r.Obs, o)
+		}
+		r.Floor("C20-R4", 2)
+	}
 }
 
 // storePathArg reports whether expression e inside fc denotes the ManagedServer.path field, directly
